@@ -5,6 +5,7 @@ from h5 import gen, lean, trees, wire
 
 ID = "C19"
 PROPS_MODULE = "H5.Props.C19"
+EXTRA_PROPS_MODULES = ["H5.Props.C19b"]
 GEN_MODULES = ["Sax", "Constants"]
 CORRESPONDENCE_OPS = ["sax"]
 SOURCES = ["html5lib/treeadapters/sax.py", "html5lib/treewalkers/base.py", "html5lib/constants.py"]
